@@ -36,6 +36,17 @@ def fault_case(draw):
 
 
 @st.composite
+def framing_case(draw):
+    prog = draw(gen_basic.program(max_lines=6))
+    muts = []
+    for _ in range(draw(st.integers(1, 2))):
+        muts.append([draw(st.sampled_from(["start", "len", "num", "term", "eof", "any"])), draw(st.integers(0, 10 ** 6)),
+                     draw(st.one_of(st.sampled_from([0, 1, 2, 3, 4, 5, 0x0D, 0x0A, 0x20, 0xFF, 0xFE, 0x8D]),
+                                    st.integers(0, 255)))])
+    return {"mode": "framing", "prog": prog, "listo": draw(st.integers(0, 7)), "muts": muts}
+
+
+@st.composite
 def multi_case(draw):
     dialect = draw(st.sampled_from(rb.DIALECT_NAMES))
     files = []
@@ -59,7 +70,10 @@ class C09(CheckBase):
             "prefix of the tool's own listing of P; (b) one constructive framing/token fault (bad start byte, "
             "impossible length, LE line without CR, unassigned token, unassigned extension code, 0x8D cut off, "
             "extension byte at end of line, Windows fast variable, NUL) -> rejected, stdout = listing of the lines "
-            "before the fault + a prefix of the faulty line; (c) histories of 1-4 input files (valid / truncated / "
+            "before the fault + a prefix of the faulty line; (b2) 1-2 single-byte substitutions at framing positions "
+            "(line start, length, line number, terminator, end marker, anywhere) judged by a reference framing "
+            "parser written from doc/bbcbasic.5 (reject => tool must reject and keep the complete lines; accept => "
+            "same listing as the reference; documents silent => skipped); (c) histories of 1-4 input files (valid / truncated / "
             "empty) -> stdout = concatenation of the per-file outputs, exit = max.  Non-trivial: a cut inside a "
             "line body, a fault after >= 1 good line, or a history containing a truncated file after another file")
     assumptions = ("O(P) is the tool's own output on the intact file (it must exit 0 there)",
@@ -68,7 +82,7 @@ class C09(CheckBase):
     budget_s = {"quick": 40, "thorough": 900}
 
     def strategy(self, tier):
-        return st.one_of(prefix_case(), fault_case(), multi_case())
+        return st.one_of(prefix_case(), fault_case(), framing_case(), framing_case(), multi_case())
 
     def examples(self, tier):
         return 2500 if tier == "quick" else 100000
@@ -91,6 +105,8 @@ class C09(CheckBase):
                 self._prefix(v, tool, sb, case)
             elif case["mode"] == "fault":
                 self._fault(v, tool, sb, case)
+            elif case["mode"] == "framing":
+                self._framing(v, tool, sb, case)
             else:
                 self._multi(v, tool, sb, case)
         return v
@@ -269,6 +285,79 @@ class C09(CheckBase):
             elif rest_out.startswith(allowed) and len(rest_out) > len(allowed):
                 v.fail("C09/fault-invented-text", "text beyond the fault point was printed (%s)" % fault,
                        {"extra": rest_out[:200], "allowed": allowed[:200]})
+
+    # ------------------------------------------------------------ (b2) single-byte framing corruption
+    def _framing(self, v, tool, sb, case):
+        prog = case["prog"]
+        dialect = prog["dialect"]
+        d = rb.CANON[dialect]
+        be = d in rb.BIG_ENDIAN
+        lines = [(n, bytes(b)) for n, b in prog["lines"]]
+        data = bytearray(prog_bytes(prog))
+        # positions of the framing bytes
+        pos = {"start": [], "len": [], "num": [], "term": [], "eof": []}
+        i = 0
+        for num, body in lines:
+            if be:
+                pos["start"].append(i)
+                pos["num"] += [i + 1, i + 2]
+                pos["len"].append(i + 3)
+                i += 4 + len(body)
+            else:
+                pos["len"].append(i)
+                pos["num"] += [i + 1, i + 2]
+                pos["term"].append(i + 3 + len(body))
+                i += 4 + len(body)
+        pos["eof"] = list(range(i, len(data)))
+        changed = False
+        for kind, where, val in case["muts"]:
+            cands = pos.get(kind) or list(range(len(data)))
+            if kind == "any":
+                cands = list(range(len(data)))
+            if not cands:
+                continue
+            p = cands[where % len(cands)]
+            if data[p] != val:
+                data[p] = val
+                changed = True
+        if not changed:
+            v.skipped = "mutation-was-identity"
+            return
+        listo = case["listo"]
+        try:
+            ref_lines = rb.parse_program(dialect, bytes(data))
+            verdict = "accept"
+        except rb.Ambiguous:
+            v.skipped = "documents-silent"
+            return
+        except rb.Reject as ex:
+            ref_lines = ex.lines
+            verdict = "reject"
+        try:
+            before, neg = rb.listing(dialect, listo, ref_lines)
+        except rb.Reject:
+            return
+        if neg:
+            v.skipped = "negative-indent"
+            return
+        p = sb.file("framing.bbc", bytes(data))
+        r = runtool.run([tool, "--dialect", dialect, "--listo", str(listo), p], sb.path)
+        v.evaluations += 1
+        v.classes.append("framing-" + verdict)
+        v.nontrivial = True
+        if r.signal is not None or r.timed_out:
+            v.fail("C09/framing-crash", "signal/timeout on a framing-corrupted program", r.brief())
+            return
+        if verdict == "reject":
+            self._rejected(v, r, "framing corruption %s in %s" % ([m[0] for m in case["muts"]], dialect), "C09/framing")
+            if not r.stdout.startswith(before):
+                v.fail("C09/framing-lost-lines", "complete lines before the corruption were not listed intact",
+                       {"got": r.stdout[:300], "want_prefix": before[:300]})
+        else:
+            if r.status != 0 or r.stdout != before:
+                v.fail("C09/framing-valid-rejected", "the corrupted file is still a well-formed program (reference "
+                       "parser) but the listing differs or exit %s" % r.status,
+                       {"got": r.stdout[:300], "want": before[:300], "stderr": r.stderr[:200]})
 
     # ------------------------------------------------------------ (c)
     def _multi(self, v, tool, sb, case):
